@@ -371,6 +371,12 @@ class ExprMixin:
             return [(p, VSet(z3.Lambda(x, z3.Or(z3.Select(a.arr, *x), z3.Select(b.arr, *x))), a.elem))]
         if isinstance(op, ast.Mod) and isinstance(a, VStr):
             return [(p, VStr(z3.Const(fresh_name("strfmt"), STR.sorts()[0])))]
+        if isinstance(op, ast.BitOr) and all(isinstance(x, VRef) and x.cls in self.classes and self.classes[x.cls].box
+                                             and self.classes[x.cls].box[0] == "set" for x in (a, b)):
+            sa, sb = self.box_value(p, a), self.box_value(p, b)
+            x = [z3.Const(fresh_name("e"), s) for s in sa.elem.sorts()]
+            u = VSet(z3.Lambda(x, z3.Or(z3.Select(sa.arr, *x), z3.Select(sb.arr, *x))), sa.elem)
+            return [(p, self.new_box(p, "set", [sa.elem], u))]
         r = self.binop_extra(op, a, b, p, node)
         if r is not None:
             return r
